@@ -54,6 +54,9 @@ func newAct(t int) schema.ActivityInterface {
 	case 8:
 		return &schema.ReceiveTask{}
 	case 9:
+		if populateSub {
+			return populatedSubProcess()
+		}
 		return &schema.SubProcess{}
 	case 10:
 		return &schema.Transaction{}
@@ -63,6 +66,33 @@ func newAct(t int) schema.ActivityInterface {
 		return &schema.Activity{}
 	}
 	panic("c19: bad type index")
+}
+
+// populateSub makes newAct hand the builder sub-processes that have a content of their own
+// (start event -> end event), as a user who wants the output to be executable would: the engine
+// rejects a sub-process without a start event by design (SubProcessError), and the statement
+// does not say that an empty one is executable. Used by Corpus only.
+var (
+	populateSub bool
+	subCounter  int
+)
+
+func populatedSubProcess() *schema.SubProcess {
+	subCounter++
+	sid, eid, fid := fmt.Sprintf("SubStart_%d", subCounter), fmt.Sprintf("SubEnd_%d", subCounter), fmt.Sprintf("SubFlow_%d", subCounter)
+	sp := &schema.SubProcess{}
+	st, en, fl := schema.StartEvent{}, schema.EndEvent{}, schema.SequenceFlow{}
+	st.SetId(&sid)
+	en.SetId(&eid)
+	fl.SetId(&fid)
+	fl.SetSourceRef(schema.IdRef(sid))
+	fl.SetTargetRef(schema.IdRef(eid))
+	st.SetOutgoings([]schema.QName{schema.QName(fid)})
+	en.SetIncomings([]schema.QName{schema.QName(fid)})
+	sp.SetStartEvents([]schema.StartEvent{st})
+	sp.SetEndEvents([]schema.EndEvent{en})
+	sp.SetSequenceFlows([]schema.SequenceFlow{fl})
+	return sp
 }
 
 // goTypeName is the dynamic type name of a flow node ("Task", "StartEvent", ...).
@@ -397,9 +427,11 @@ type Doc struct {
 // Corpus returns single-process builder outputs for the engine-execution clause of C19 (not
 // checked here): all sequences of length <= 2 over the ten supported types x {generated, preset id}
 // (421) and all sequences of length 3..6 (thorough: 3..8) over the two-symbol alphabet
-// {Task, ServiceTask#}. No AutoLayout is applied. Outputs whose construction panics are omitted
+// {Task, ServiceTask#}. Sub-processes are given a content (start -> end). No AutoLayout is applied. Outputs whose construction panics are omitted
 // (Plains reports those).
 func Corpus(tier string) []Doc {
+	populateSub, subCounter = true, 0
+	defer func() { populateSub = false }()
 	seqs := allSeqs(fullAlphabet(nSupported), 0, 2)
 	maxTwo := 6
 	if tier == "thorough" {
